@@ -115,6 +115,13 @@ cfg_not_miri! {
                     }
                 }
 
+                pub(crate) fn peek_time(&self) -> Option<SimTime> {
+                    self.zero_queue
+                        .front()
+                        .map(|e| e.time)
+                        .or_else(|| self.heap.peek().map(|e| e.time))
+                }
+
                 //
                 // clippy::let_and_return occures on not(feature = "metrics")
                 // but would produce invalid code with feature "metrics"
@@ -202,6 +209,10 @@ cfg_not_miri! {
                     Self {
                         inner: CQueue::new(options.cqueue_num_buckets, options.cqueue_bucket_timespan),
                     }
+                }
+
+                pub(crate) fn peek_time(&self) -> Option<SimTime> {
+                    self.inner.peek_time().map(SimTime::from_duration)
                 }
 
                 #[allow(clippy::needless_pass_by_value)]
@@ -342,6 +353,13 @@ cfg_miri! {
 
                     last_event_simtime: options.start_time,
                 }
+            }
+
+            pub(crate) fn peek_time(&self) -> Option<SimTime> {
+                self.zero_queue
+                    .front()
+                    .map(|e| e.time)
+                    .or_else(|| self.heap.peek().map(|e| e.time))
             }
 
             //
